@@ -704,6 +704,47 @@ class _Tracked:
         return P(self.vals, self.steps, kind=kind)
 
 
+def _cancel_case(rng, tier):
+    """like terms with LARGE coefficients that nearly cancel: the exact sum r of the like terms is far above the 1e-8 cut-off
+    although it is tiny RELATIVE to the summands (1e-8 < |r| <= 1e-8 * max|summand|) – the cut-off is absolute, so the residue
+    must survive simplification, through every operation and operand mix.  All values are dyadic with < 52 significant bits,
+    so the double arithmetic is exact and the exact model must agree to the last bit."""
+    k = rng.randrange(28, 45)
+    j = rng.randrange(0, min(21, 51 - k))
+    big, r = Fraction(2) ** k, Fraction(1, 2 ** j)
+    pool = _pool(rng, 3)
+    strs = _strings(rng, pool, 3)
+    Pops, Qops = strs[0], strs[1] if strs[1] != strs[0] else [[max(pool) + 1, "Z"]]
+    imag = rng.random() < 0.3
+    def co(x):
+        return (0, x) if imag else (x, 0)
+    sgn = rng.choice([1, -1])
+    A = T(Pops, *co(sgn * (big + r)))
+    B = T(list(reversed(Pops)), *co(sgn * big))
+    Bn = T(Pops, *co(-sgn * big))
+    R = T(Pops, *co(sgn * r))
+    Q = T(Qops, 1)
+    g = _Prog([A, B, Bn, R, Q, S(A, Q), S(B, T(Qops, Fraction(1, 2))), S(A, Q, Bn), N(*co(sgn * (big + r))), S(T([], *co(-sgn * big)), T(Qops, 2)),
+               N(-1), S(T(Pops, 2 ** 15), Q), S(T(Pops, 2 ** 15), T(Qops, -1, 0)), S()])
+    d = g("sub", 0, 1); g("eq", d, 3); g("eq", 3, d)
+    a2 = g("add", 0, 2); g("eq", a2, 3)
+    nb = g("mul", 10, 1); a3 = g("add", nb, 0); g("eq", a3, 3)
+    h = g("sub", 5, 6)                       # H1 - H2 with a large common offset
+    s7 = g("simplify", 7)                    # duplicates inside one user-built sum
+    g("eq", s7, g("add", 3, 4))
+    g("add", 8, 9)                           # number + sum with a large constant term
+    g("add", 9, 8)
+    z = g("sub", d, 3); g("eq", z, 13)        # and the residue itself cancels exactly
+    # product whose cross terms nearly cancel: (2^15 P + Q)(2^15 P - Q) and with a perturbed factor
+    pr = g("mul", 11, 12)
+    g("mul", 12, 11)
+    g("add", pr, h)
+    if rng.random() < 0.5:
+        g("isub", 0, 1)
+        g("iadd", 0, 2)
+    return g.case("cancel")
+
+
 def _wide_case(rng, tier):
     """coefficients of very different magnitude inside one operator / one expression (a 2^27..2^33 ratio between the
     largest and an ordinary coefficient, at four absolute levels; plus coefficients below the 1e-8 tolerance), through
@@ -1416,6 +1457,8 @@ def generate(rng, tier):
         cases.append(_history_case(rng, tier))
     for _ in range(400 if big else 70):
         cases.append(_wide_case(rng, tier))
+    for _ in range(120 if big else 24):
+        cases.append(_cancel_case(rng, tier))
     for _ in range(250 if big else 50):
         cases.append(_sibling_case(rng, tier))
     for _ in range(200 if big else 40):
